@@ -47,6 +47,54 @@ theorem extract_display_order (pres : Nat → Nat) (n : Nat) (c : Cfg) (conv : B
     ∃ out, extract pres n c conv items = some out ∧ out.length = n ∧ ∀ k, k < n → out[pres k]? = rs[k]? :=
   extract_of_rpus pres n c conv items rs hsl hdrop hrpu hnd hrs hn hlen hperm
 
+/-- **… stated on frames.**  The hypothesis that was only in the comment above, made explicit: when the RPUs of
+the stream are attributed to the frames `0, 1, …, n-1` in this order (`rpuAus items = List.range n`: every frame
+carries exactly one RPU), entry number `pres k` of the written file is the RPU NAL attributed to frame `k` (its
+payload without the 2-byte header, rewritten by the library when a mode is set) — the k-th RPU of the output
+belongs to the frame displayed k-th. -/
+theorem extract_display_order_by_frame (pres : Nat → Nat) (n : Nat) (c : Cfg) (conv : Bytes → Option Bytes)
+    (items : List Item) (rs : List Bytes) (hsl : c.sl = false) (hdrop : c.drop = false) (hrpu : c.rpu = true)
+    (hau : rpuAus items = List.range n)
+    (hrs : optMap (fun it => (rpuConv c.convSet conv it.data).map (fun m => m.drop 2)) (items.filter isRpu) = some rs)
+    (hn : n ≠ 0) (hperm : ((List.range n).map pres).Perm (List.range n)) :
+    ∃ out, extract pres n c conv items = some out ∧ out.length = n ∧
+      ∀ k, k < n → ∃ it, it ∈ items ∧ isRpu it = true ∧ it.au = k ∧
+        (rpuConv c.convSet conv it.data).map (fun m => m.drop 2) = out[pres k]? := by
+  have hlenf : (items.filter isRpu).length = n := by
+    have := congrArg List.length hau
+    simpa [rpuAus] using this
+  have hlen : rs.length = n := by rw [optMap_length _ _ _ hrs, hlenf]
+  have hnd : NoDupFrom 0 (rpuAus items) := by
+    rw [hau]
+    have : ∀ (m a : Nat), NoDupFrom (if a = 0 then 0 else a - 1) ((List.range' a m)) := by
+      intro m
+      induction m with
+      | zero => intro a; trivial
+      | succ m ih =>
+        intro a
+        simp only [List.range'_succ, NoDupFrom]
+        refine ⟨?_, ?_⟩
+        · by_cases ha : a = 0
+          · left; simp [ha]
+          · right; simp [ha]; omega
+        · have := ih (a + 1)
+          simpa using this
+    have h0 := this n 0
+    simpa [List.range_eq_range'] using h0
+  obtain ⟨out, ho, hol, hk⟩ := extract_display_order pres n c conv items rs hsl hdrop hrpu hnd hrs hn hlen hperm
+  refine ⟨out, ho, hol, ?_⟩
+  intro k hkn
+  have hk' : k < (items.filter isRpu).length := by omega
+  have hmem : (items.filter isRpu)[k] ∈ items.filter isRpu := List.getElem_mem hk'
+  refine ⟨(items.filter isRpu)[k], (List.mem_filter.mp hmem).1, (List.mem_filter.mp hmem).2, ?_, ?_⟩
+  · have h1 : (rpuAus items)[k]? = some k := by rw [hau]; simp [hkn]
+    simp only [rpuAus, List.getElem?_map] at h1
+    rw [List.getElem?_eq_getElem hk'] at h1
+    simpa using h1
+  · rw [hk k hkn]
+    have := optMap_getElem _ _ _ hrs k hk'
+    simpa using this
+
 /-- the sort is by presentation number and stable, for any `pres` (also when frames lack RPUs and the
 k-th RPU is therefore matched with frame k — what the tool does, see the model) -/
 theorem extract_sorted_by_presentation (pres : Nat → Nat) (rs : List Bytes) :
